@@ -126,7 +126,10 @@ def module_descs(draw, with_apps=True, max_depth=3, sym_pool=('a', 'b', 'c', 'A'
                             val = gens.draw_admissible_concrete(draw, merged, cfg, 1)
                         delta.append([k, gens.sugared_to_json(val)])
                     if directed is not None:
-                        delta = [[directed[0], gens.sugared_to_json(directed[1])]]
+                        nds = nodes.get(directed[0], [])
+                        merged = R.MV(directed[0], *[tuple(sorted({x for nd in nds for x in nd[i]})) for i in (2, 3, 4, 5)])
+                        if gens.admissible_for(merged, directed[1]):     # the plug may itself constrain the same metavariable id
+                            delta = [[directed[0], gens.sugared_to_json(directed[1])]]
                     c['delta'] = delta
                     # domain: capture-free instantiations with a documented-well-formed result (a capturing one is refused by
                     # the checker by design; the toolkit has no capture check - outside C02 as for 'quant')
@@ -162,7 +165,13 @@ def module_descs(draw, with_apps=True, max_depth=3, sym_pool=('a', 'b', 'c', 'A'
                 schema = draw(st.sampled_from(['prop1', 'prop2', 'prop3']))
                 keys = list(draw(st.permutations({'prop1': [0, 1], 'prop2': [0, 1, 2], 'prop3': [0]}[schema])))
                 keys = keys[: draw(st.integers(1, len(keys)))]
-                claims.append({'kind': 'dyninst', 'schema': schema, 'delta': [[k, gens.sugared_to_json(draw_axiom(draw, cfg, 1))] for k in keys]})
+                vals = [draw_axiom(draw, cfg, 1) for _ in keys]
+                if draw(st.integers(0, 2)) == 0:
+                    # one value is a notation-style instance whose argument map is NOT in key order (what completing a partially
+                    # applied notation produces): the order of the map decides the order of the emitted plugs
+                    body = draw(st.sampled_from([R.I(R.MV(0), R.I(R.MV(1), R.MV(0))), R.A(R.MV(1), R.MV(0)), R.I(R.MV(1), R.MV(0))]))
+                    vals[draw(st.integers(0, len(vals) - 1))] = ('inst', body, ((1, draw_axiom(draw, cfg, 0)), (0, draw_axiom(draw, cfg, 0))))
+                claims.append({'kind': 'dyninst', 'schema': schema, 'delta': [[k, gens.sugared_to_json(v)] for k, v in zip(keys, vals)]})
             elif kind == 'quant':
                 _, _, defs = H.pool()
                 pat = draw_axiom(draw, cfg, 2)
